@@ -10,7 +10,9 @@ Record case := mk_case {
   c_rows : list (Z * valuation);       (* live rows and their soft-deleted twins (id + 100) *)
   c_live_ids : list Z;
   o_where : string;
-  o_find : list Z; o_pluck : list Z; o_rows : list Z; o_count : Z; o_first : option Z;
+  o_find : list Z; o_pluck : list Z; o_rows : list Z;
+  o_cfind : list Z;                   (* Find continued from the result of Count (pagination idiom) *)
+  o_count : Z; o_first : option Z;
   o_batches : list (list Z);
   n_find : list Z; n_count : Z; n_first : option Z;       (* same chain, twins physically removed *)
   o_update : list Z; n_update : list Z; o_update_twins : list Z;
@@ -82,7 +84,7 @@ Definition spec_holds (c : case) : bool :=
   && zlist_eqb (o_find c) (n_find c) && subset (o_find c) (c_live_ids c)
   && (o_count c =? n_count c)%Z && (o_count c =? Z.of_nat (List.length (o_find c)))%Z
   && oz_eqb (o_first c) (n_first c) && oz_eqb (o_first c) (hd_error (o_find c))
-  && zlist_eqb (o_pluck c) (o_find c) && zlist_eqb (o_rows c) (o_find c)
+  && zlist_eqb (o_pluck c) (o_find c) && zlist_eqb (o_rows c) (o_find c) && zlist_eqb (o_cfind c) (o_find c)
   && zlist_eqb (List.concat (o_batches c)) (o_find c)
   (* writes: exactly the matching live rows change, twins are byte-identical afterwards *)
   && zlist_eqb (o_update c) (n_update c) && zlist_eqb (o_update c) (o_find c)
